@@ -161,7 +161,7 @@ def do_spelling(case):
         if (r.status, r.out) != (ref.status, ref.out) or r.err.strip():
             fails.append(({'kind': 'spelling', 'spelling': k, 'otype': o['type']},
                           {'cfg': text, 'ref_cfg': '%s=%s' % (name, v), 'res': r.brief()}))
-    if o['type'] != 'str' or (value and not any(c in value for c in ' \t')):
+    if True:        # (--set takes the value as it is: blanks, '=' and the empty string are values like any other)
         r = D('', extra=['--set', '%s=%s' % (name, value)])
         if (r.status, r.out) != (ref.status, ref.out):
             fails.append(({'kind': 'spelling', 'spelling': '--set', 'otype': o['type']},
@@ -390,6 +390,12 @@ def cases(ctx):
             vs = [x for x in registry.values(o) if x != o['default']] or registry.values(o)
             v = rng.choice(vs)
         out.append(('spelling', (o['name'], v)))
+    # every string option x every string value class in every spelling (config line forms and --set)
+    for o in reg:
+        if o['type'] == 'str':
+            for _vc, sv in STR_VALUES:
+                if sv != 'abc':
+                    out.append(('spelling', (o['name'], sv)))
     # references: same-type pairs
     bytype = {}
     for o in reg:
